@@ -10,6 +10,7 @@ import (
 	"hash/fnv"
 	"os"
 	"path/filepath"
+	"runtime/debug"
 	"sort"
 	"strconv"
 	"strings"
@@ -280,9 +281,24 @@ func (r *Rec) Report(t failer, desc interface{}, v *Violation, extra ...interfac
 // Run is the usual per-case sequence: journal, execute, count, judge.
 func (r *Rec) Run(t failer, desc interface{}, nontrivial bool, classes []string, run func() *Violation) {
 	r.Begin(desc)
-	v := run()
+	v := safeRun(run)
 	r.Case(desc, nontrivial, classes...)
 	r.Report(t, desc, v)
+}
+
+// safeRun turns a panic that travels out of library code into the harness goroutine (e.g. out of an in-process
+// HandleRequest or a client function) into a violation: in a real program it would have taken the caller down.
+func safeRun(run func() *Violation) (v *Violation) {
+	defer func() {
+		if x := recover(); x != nil {
+			stack := string(debug.Stack())
+			if !strings.Contains(stack, "filecoin-project/go-jsonrpc") && !strings.Contains(stack, "/repo/") {
+				panic(x) // not the library's: a defect of the harness itself
+			}
+			v = violf("library-panic-reaches-caller", "a panic travelled out of the library into its caller: %v; stack: %s", x, trunc(stack, 1200))
+		}
+	}()
+	return run()
 }
 
 // Rapid runs a rapid property as a sub-test so that Finish still executes after
